@@ -330,6 +330,11 @@ def templates_shard(res, rng):
             ["eq", ["and", x, ["bvv", 1, w]], ["bvv", 0, w]], ["ne", ["or", x, ["bvv", 1, w]], ["bvv", 0, w]],
             ["lshr", x, y], ["shl", x, ["and", y, ["bvv", 3 & m, w]]], ["ashr", ["neg", x], ["bvv", 1, w]],
             ["urem", x, ["or", y, ["bvv", 1, w]]], ["udiv", x, ["or", y, ["bvv", 1, w]]],
+            # the same variable seen through two different operations (the VSA backend identifies values by name)
+            ["eq", ["sext", 2, x], ["zext", 2, x]], ["ne", ["sext", 1, x], ["zext", 1, x]], ["ult", ["zext", 2, x], ["sext", 2, x]],
+            ["eq", ["extract", w - 2, 0, x], ["extract", w - 1, 1, x]], ["eq", ["lshr", x, ["bvv", 1, w]], x], ["eq", ["ashr", x, ["bvv", 1, w]], ["lshr", x, ["bvv", 1, w]]],
+            ["eq", ["inv", x], x], ["eq", ["neg", x], x], ["eq", ["shl", x, ["bvv", 1, w]], x], ["eq", ["and", x, ["bvv", m >> 1, w]], x],
+            ["eq", ["concat", x, x], ["concat", x, y]], ["eq", ["ite", ["ult", x, y], x, y], x], ["eq", ["zext", 1, x], ["zext", 1, y]],
         ]
         if w % 8 == 0:
             shapes += [["eq", x, ["reverse", x]], ["reverse", ["add", x, ["bvv", 1, w]]], ["ult", ["reverse", x], y], ["eq", ["reverse", ["reverse", x]], x], ["sub", ["reverse", x], x], ["extract", 7, 0, ["reverse", x]]]
